@@ -709,19 +709,26 @@ def gen_legacy_project(R, bvmods, *, n_files=None, eol_choices=("\n",)):
         pos = 0
         order = list(pats)
         R.shuffle(order)
-        for raw in order:
-            for _ in range(R.randint(0, 2)):
-                t = plain_filler(R) + eol
-                out.append(t)
-                pos += len(t)
+        share_next = False
+        for i, raw in enumerate(order):
+            if not share_next:
+                for _ in range(R.randint(0, 2)):
+                    t = plain_filler(R) + eol
+                    out.append(t)
+                    pos += len(t)
             pre = plain_filler(R, R.randint(0, 2)) + " "
             occ = raw.replace("{version}", proj.cur_text)
             out.append(pre)
             pos += len(pre)
             proj.plants.append(Plant(file=fn, start=pos, end=pos + len(occ), kind="version", raw=raw,
                                      norm=raw.replace("{version}", vp), ast=None, text=occ))
-            out.append(occ + eol)
-            pos += len(occ) + len(eol)
+            # two different patterns may share a line (each is rewritten at its own place)
+            share_next = i + 1 < len(order) and R.random() < 0.3
+            tail = " | " if share_next else eol
+            out.append(occ + tail)
+            pos += len(occ) + len(tail)
+            if share_next:
+                proj.meta["shared_lines"] = proj.meta.get("shared_lines", 0) + 1
         proj.files[fn] = "".join(out)
     proj.files[proj.cfg_name] = build_config(proj, R)
     needle = f'current_version = "{proj.cur_text}"'
@@ -730,7 +737,8 @@ def gen_legacy_project(R, bvmods, *, n_files=None, eol_choices=("\n",)):
                              norm=selfp.replace("{version}", vp), ast=None, text=needle))
     proj.eol[proj.cfg_name] = "LF"
     proj.meta = {"n_files": nf, "fmt": "toml", "explicit_cfg": explicit, "legacy": True, "kinds": ["version"],
-                 "eols": sorted(set(proj.eol.values())), "globs": 0, "shared_lines": 0}
+                 "eols": sorted(set(proj.eol.values())), "globs": 0, "shared_lines": proj.meta.get("shared_lines", 0),
+                 "cfg_extra": proj.meta.get("cfg_extra")}
     return proj, None
 
 
